@@ -123,6 +123,12 @@ func drawTok(t *rapid.T, id int, w, h int) tok {
 		}
 		return tok{"paste", []byte("\x1b[201~"), "paste:false"}
 	default:
+		if id%3 == 2 {
+			// ESC directly followed by a mouse report: if the ESC yields an
+			// Esc key at all, input order puts it before the report
+			x, y := id%30+1, (id/3)%12+1
+			return tok{"esc+mouse", []byte(fmt.Sprintf("\x1b\x1b[<0;%d;%dM", x, y)), fmt.Sprintf("?key:%d:0|mouse:%d,%d:%d:0", tcell.KeyEsc, x-1, y-1, tcell.Button1)}
+		}
 		if id%2 == 0 {
 			return tok{"focus", []byte("\x1b[I"), "focus:true"}
 		}
@@ -183,7 +189,8 @@ func drawPlan(t *rapid.T, mode string) *plan {
 	}
 	if mode == "C06" {
 		sd := &p.Shutdown
-		sd.Kind = rapid.SampledFrom([]string{"fini", "fini", "suspend", "suspend-resume-fini", "fini2", "fini-concurrent", "suspend-resume-suspend"}).Draw(t, "sdkind")
+		sd.Kind = rapid.SampledFrom([]string{"fini", "fini", "suspend", "suspend-resume-fini", "fini2", "fini-concurrent", "suspend-resume-suspend",
+			"suspend||resume", "suspend||suspend", "resume||fini", "startfail-resume-fini"}).Draw(t, "sdkind")
 		sd.FromSecond = rapid.Bool().Draw(t, "sdsecond")
 		n := rapid.IntRange(0, 30).Draw(t, "nextra")
 		for j := 0; j < n; j++ {
@@ -450,8 +457,10 @@ func (w *ew) feed(toks []tok) {
 	var b []byte
 	for _, tk := range toks {
 		b = append(b, tk.B...)
-		w.wantIn = append(w.wantIn, tk.Want)
-		w.fedAt = append(w.fedAt, w.S.Now())
+		for _, want := range strings.Split(tk.Want, "|") {
+			w.wantIn = append(w.wantIn, want)
+			w.fedAt = append(w.fedAt, w.S.Now())
+		}
 	}
 	w.Tty.Feed(b)
 }
@@ -555,27 +564,44 @@ func (w *ew) inputMatches(want, got string) bool {
 // checkLedger reconciles causes and deliveries.  complete says every event
 // must have been delivered (the queue was drained at quiescence).
 func (w *ew) checkLedger(complete bool) {
-	n := len(w.gotIn)
-	if n > len(w.wantIn) {
-		w.Failf("C05/dup", "delivered %d input events but only %d were sent; extra: %v", n, len(w.wantIn), w.gotIn[len(w.wantIn)].Desc)
-		n = len(w.wantIn)
-	}
-	for i := 0; i < n; i++ {
-		if !w.inputMatches(w.wantIn[i], w.gotIn[i].Desc) {
-			tag := "C05/order"
-			// classify: lost if the delivered one matches a later expected event
-			if i+1 < len(w.wantIn) && w.inputMatches(w.wantIn[i+1], w.gotIn[i].Desc) {
-				tag = "C05/lost"
-			} else if i > 0 && w.inputMatches(w.wantIn[i-1], w.gotIn[i].Desc) {
-				tag = "C05/dup"
-			}
-			w.Failf(tag, "input event #%d: expected %s, delivered %s (sent %d, delivered %d)", i, w.wantIn[i], w.gotIn[i].Desc, len(w.wantIn), len(w.gotIn))
-			break
+	// expected entries starting with '?' are optional (may be absent, but
+	// if present they must be in this position)
+	gi := 0
+	missing := ""
+	for wi := 0; wi < len(w.wantIn); wi++ {
+		want := w.wantIn[wi]
+		opt := strings.HasPrefix(want, "?")
+		want = strings.TrimPrefix(want, "?")
+		if gi < len(w.gotIn) && w.inputMatches(want, w.gotIn[gi].Desc) {
+			w.checkWhen(w.gotIn[gi], w.fedAt[wi], "input event "+w.gotIn[gi].Desc)
+			gi++
+			continue
 		}
-		w.checkWhen(w.gotIn[i], w.fedAt[i], "input event "+w.gotIn[i].Desc)
+		if opt {
+			continue
+		}
+		if gi >= len(w.gotIn) {
+			if missing == "" {
+				missing = want
+			}
+			continue
+		}
+		tag := "C05/order"
+		if wi+1 < len(w.wantIn) && w.inputMatches(strings.TrimPrefix(w.wantIn[wi+1], "?"), w.gotIn[gi].Desc) {
+			tag = "C05/lost"
+		} else if wi > 0 && w.inputMatches(strings.TrimPrefix(w.wantIn[wi-1], "?"), w.gotIn[gi].Desc) {
+			tag = "C05/dup"
+		}
+		w.Failf(tag, "input event #%d: expected %s, delivered %s (sent %d, delivered %d)", gi, want, w.gotIn[gi].Desc, len(w.wantIn), len(w.gotIn))
+		missing = ""
+		gi = len(w.gotIn)
+		break
 	}
-	if complete && len(w.gotIn) < len(w.wantIn) {
-		w.Failf("C05/lost", "only %d of %d input events were delivered after the queue was drained; first missing %s", len(w.gotIn), len(w.wantIn), w.wantIn[len(w.gotIn)])
+	if gi < len(w.gotIn) && w.Fail == nil {
+		w.Failf("C05/dup", "delivered %d input events, more than were sent; extra: %v", len(w.gotIn), w.gotIn[gi].Desc)
+	}
+	if complete && missing != "" {
+		w.Failf("C05/lost", "only %d input events were delivered after the queue was drained; first missing %s", len(w.gotIn), missing)
 	}
 	for poster, res := range w.postRes {
 		var want []int
@@ -799,6 +825,43 @@ func (w *ew) shutdownActor() {
 	case "suspend-resume-fini":
 		w.call("suspend", func() { _ = w.Scr.Suspend() })
 		w.call("resume", func() { w.resumeErr = w.Scr.Resume() })
+		w.call("fini", w.Scr.Fini)
+		w.finied = true
+	case "suspend||resume":
+		// a Resume from another goroutine lands while Suspend is in progress
+		other := false
+		simrt.Go("resume-b", func() { _ = w.Scr.Resume(); other = true })
+		w.call("suspend", func() { _ = w.Scr.Suspend() })
+		simrt.Wait("resume-b.join", func() bool { return other })
+		w.call("fini", w.Scr.Fini)
+		w.finied = true
+	case "suspend||suspend":
+		other := false
+		simrt.Go("suspend-b", func() { _ = w.Scr.Suspend(); other = true })
+		w.call("suspend", func() { _ = w.Scr.Suspend() })
+		simrt.Wait("suspend-b.join", func() bool { return other })
+		w.suspended = true
+	case "resume||fini":
+		w.call("suspend", func() { _ = w.Scr.Suspend() })
+		other := false
+		simrt.Go("resume-b", func() { _ = w.Scr.Resume(); other = true })
+		w.call("fini", w.Scr.Fini)
+		w.finied = true
+		simrt.Wait("resume-b.join", func() bool { return other })
+	case "startfail-resume-fini":
+		// the tty fails to start once: the screen must stay suspended, a
+		// retried Resume must work, and Fini must still be clean
+		w.call("suspend", func() { _ = w.Scr.Suspend() })
+		w.Tty.StartFailAt = w.Tty.Starts + 1
+		var err1 error
+		w.call("resume", func() { err1 = w.Scr.Resume() })
+		if err1 == nil {
+			w.Failf("C06/resume-dead", "Resume returned nil although the tty failed to start")
+		}
+		w.call("resume", func() { w.resumeErr = w.Scr.Resume() })
+		if w.resumeErr != nil {
+			w.Failf("C06/resume-dead", "Resume after a failed start of the tty keeps failing: %v", w.resumeErr)
+		}
 		w.call("fini", w.Scr.Fini)
 		w.finied = true
 	case "suspend-resume-suspend":
